@@ -40,6 +40,8 @@ type World struct {
 	// Alias maps "rel|recv|name" of a private function that no longer exists under that name
 	// to the declaration that plays its role (filled by the rules' role finders)
 	Alias map[string]*FuncInfo
+	// FieldAlias does the same for private struct fields ("rel|type|field")
+	FieldAlias map[string]*types.Var
 }
 
 // FuncInfo ties a declared function to its syntax and package.
@@ -248,6 +250,9 @@ func (w *World) Field(rel, typ, field string) *types.Var {
 		if st.Field(i).Name() == field {
 			return st.Field(i)
 		}
+	}
+	if a := w.FieldAlias[rel+"|"+typ+"|"+field]; a != nil {
+		return a
 	}
 	return nil
 }
